@@ -73,6 +73,17 @@ class _Stop(Exception):
     pass
 
 
+def viol(ctx, key, what, replay):
+    """report the first failing input of every key (input class); further ones are only counted"""
+    seen = getattr(ctx, "_c09_seen", None)
+    if seen is None:
+        seen = ctx._c09_seen = {}
+    seen[key] = seen.get(key, 0) + 1
+    ctx.extra["failing_inputs_per_key"] = dict(seen)
+    if seen[key] == 1:
+        ctx.violation(key, what, replay)
+
+
 class patched:
     """temporarily replace attributes of live modules / classes (always restored)"""
 
@@ -585,7 +596,7 @@ def corr_solve(ctx, iface):
         br = rec.brent[0] if rec.brent else None
         # oracle contract of the root finder on the real run (hypothesis hB of solve_root_bracketed)
         if br and br[2] is not None and not (min(br[0], br[1]) <= br[2] <= max(br[0], br[1])):
-            ctx.violation("brent-outside-bracket", "solve_bracketed_brent returned a point outside its bracket",
+            viol(ctx, "brent-outside-bracket", "solve_bracketed_brent returned a point outside its bracket",
                           {"kind": "brent", "bracket": br[:2], "root": br[2]})
         lines.append(poly_line(c["poly"], c["h0"]))
         lines.append("params %s %s %d %d" % (fstr(c["guess"]), fstr(c["factor"]), c["maxe"], 1 if c["sym"] else 0))
@@ -675,9 +686,9 @@ def direct_lift_checks(ctx, d, h0, sc, plane, out, rec, where):
     rp = {"kind": "lift", "where": where, "section_coord": sc, "plane": [str(p) for p in plane], "h0": str(h0),
           "poly": {str(k): str(v) for k, v in d.items()}, "observed": out}
     if out[si] != 0.0:
-        ctx.violation("lift:section-coordinate-nonzero:%s" % sc, "lifted point is not on the section (coordinate %s = %r)" % (sc, out[si]), rp)
+        viol(ctx, "lift:section-coordinate-nonzero:%s" % sc, "lifted point is not on the section (coordinate %s = %r)" % (sc, out[si]), rp)
     if (Fraction(out[pc[0]]), Fraction(out[pc[1]])) != tuple(plane):
-        ctx.violation("lift:plane-coordinates-changed:%s" % sc, "lifted point does not keep the plane coordinates", rp)
+        viol(ctx, "lift:plane-coordinates-changed:%s" % sc, "lifted point does not keep the plane coordinates", rp)
     six = [0.0, out[0], out[2], 0.0, out[1], out[3]]
     err = poly_exact(d, six) - h0
     br = rec.brent[0] if rec.brent else None
@@ -686,7 +697,7 @@ def direct_lift_checks(ctx, d, h0, sc, plane, out, rec, where):
         lo, hi = min(br[0], br[1]), max(br[0], br[1])
         miss = {"q3": 3, "p3": 2, "q2": 1, "p2": 0}[sc]
         if not (lo <= out[miss] <= hi):
-            ctx.violation("lift:solved-outside-bracket:%s" % sc, "solved coordinate outside the sign-change bracket", rp)
+            viol(ctx, "lift:solved-outside-bracket:%s" % sc, "solved coordinate outside the sign-change bracket", rp)
         # slope bound on the bracket from exact evaluations at the bracket ends
         xt = br[3].get("xtol", 1e-12)
         gl = abs(float(err))
@@ -703,7 +714,7 @@ def direct_lift_checks(ctx, d, h0, sc, plane, out, rec, where):
                     t *= abs(six[j]) ** kj
             L += t
         if gl > 4 * (xt + 4e-16 * xm) * L + 1e-13 * (1 + abs(float(h0))):
-            ctx.violation("lift:off-energy-level:%s" % sc, "lifted point misses the energy level: |H-h0| = %.3e" % gl, dict(rp, H_minus_h0=gl))
+            viol(ctx, "lift:off-energy-level:%s" % sc, "lifted point misses the energy level: |H-h0| = %.3e" % gl, dict(rp, H_minus_h0=gl))
 
 
 def corr_routing(ctx, iface):
@@ -736,7 +747,7 @@ def corr_routing(ctx, iface):
             expect.append(["pt " + vstr(pts[r])])
             owners.append(dict(call="plane_points_from_states", sc=sc, row=rows[r].tolist()))
             if enf[r][SECS.index(sc)] != 0.0:
-                ctx.violation("enforce:section-coordinate-nonzero:%s" % sc, "enforce_section_coordinate leaves a non-zero section coordinate",
+                viol(ctx, "enforce:section-coordinate-nonzero:%s" % sc, "enforce_section_coordinate leaves a non-zero section coordinate",
                               {"kind": "enforce", "section_coord": sc, "row": rows[r].tolist(), "observed": enf[r].tolist()})
         ctx.case(("routing", sc, i), nontrivial=True, kind="routing:" + sc)
 
@@ -977,7 +988,7 @@ def ray_errors(ctx, cfg, u):
             memo_expansions(cm)
         rt, en, s = measure_point(cm, ham, point, mu, EL, p)
         if j == 0 and not (first[0] == rt and first[1] == en and np.array_equal(first[2], s)):
-            ctx.violation("to_synodic-not-reproducible", "two identical conversions differ", {"kind": "scaling", "cfg": list(cfg), "dirs": [list(u)], "r": r})
+            viol(ctx, "to_synodic-not-reproducible", "two identical conversions differ", {"kind": "scaling", "cfg": list(cfg), "dirs": [list(u)], "r": r})
         rts.append(rt)
         ens.append(en)
         if rt < RT_FLOOR and en < EN_FLOOR and j >= 2:
@@ -1015,11 +1026,12 @@ def scaling_cfg(ctx, cfg, dirs):
 
 
 def margin(N):
-    """admissible deficit of the fitted exponent: 0.5 where the asymptotic regime is observable in double precision
-    (N <= 6); for N >= 7 the error reaches the rounding floor within a factor ~2 of the largest radius, so only the
-    pre-asymptotic regime is visible and the margin is 1.5 (a wrong link gives exponents 0..3, a series truncated one degree
-    too early gives N)"""
-    return 0.5 if N <= 6 else 1.5
+    """admissible deficit of the fitted exponent.  err / r^(N+1) = a (1 - r/r* + ...) approaches its limit slowly (r* ~ 0.2..0.5
+    on these manifolds), and the error reaches the rounding floor at r ~ 0.01 (N=4), 0.035 (N=6), 0.15 (N=8): the smaller N,
+    the deeper into the asymptotic regime the three smallest measurable radii lie.  Observed worst deficits on the unchanged
+    tree: 0.04 (N<=5), 0.4 (N=6), 0.2 (N=7..10, pre-asymptotic but the envelope happens to be regular).  Margins 0.5 / 1.0 / 1.5
+    leave >= 2.5x headroom; a wrong link gives exponents 0..3, a series truncated one degree early gives N (caught at N = 4, 5)."""
+    return 0.5 if N <= 5 else (1.0 if N == 6 else 1.5)
 
 
 def judge_scaling(ctx, res):
@@ -1031,7 +1043,7 @@ def judge_scaling(ctx, res):
                  sample={"call": "to_synodic/to_cm", "system": str(cfg[0]), "point": "L%d" % cfg[1], "degree": N, "directions": len(res["dirs"]),
                          "radii": res["r"], name: res[name], "fitted_exponent": f["exponent"]} if len(ctx.samples) < 10 else None)
         if not f["exponent"] >= N + 1 - margin(N):
-            ctx.violation("scaling:%s:L%d" % (name, cfg[1]),
+            viol(ctx, "scaling:%s:L%d" % (name, cfg[1]),
                           "%s discrepancy does not vanish like r^(N+1): fitted exponent %.2f < %g (N=%d, %s L%d)" % (
                               name, f["exponent"], N + 1 - margin(N), N, cfg[0], cfg[1]),
                           {"kind": "scaling", "cfg": list(cfg), "dirs": res["dirs"], "radii": res["r"], "observed": res[name],
@@ -1066,7 +1078,7 @@ def scaling(ctx):
         try:
             res = scaling_cfg(ctx, cfg, dirs)
         except Exception as e:   # a conversion that raises on a point inside the domain is a failing input
-            ctx.violation("conversion-raises:%s" % type(e).__name__, "to_synodic/to_cm raised %r" % (e,),
+            viol(ctx, "conversion-raises:%s" % type(e).__name__, "to_synodic/to_cm raised %r" % (e,),
                           {"kind": "scaling", "cfg": list(cfg), "dirs": dirs})
             continue
         judge_scaling(ctx, res)
@@ -1112,6 +1124,7 @@ def section_numerics(ctx, consts):
                 pt = np.array([p[pc[0]], p[pc[1]]])
                 section_check(ctx, cfg, cm, ham, point, mu, gamma, EL, consts[cfg], sc, h0, pt, worst)
     ctx.extra["section_worst"] = worst
+    ctx.log("section conversion: worst |H_cm-h0| = %.2e, worst synodic-energy discrepancy / bound = %.3f" % (worst["H_minus_h0"], worst["energy_level_ratio"]))
 
 
 def section_check(ctx, cfg, cm, ham, point, mu, gamma, EL, const, sc, h0, pt, worst=None):
@@ -1125,18 +1138,18 @@ def section_check(ctx, cfg, cm, ham, point, mu, gamma, EL, const, sc, h0, pt, wo
         s = cm.to_synodic(pt, energy=h0, section_coord=sc)
         p4 = cm.poincare_map(h0).dynamics._to_real_4d_cm(pt, sc)
     except Exception as e:
-        ctx.violation("section:raises:%s" % sc, "section conversion raised %r for an admissible energy" % (e,), rp)
+        viol(ctx, "section:raises:%s" % sc, "section conversion raised %r for an admissible energy" % (e,), rp)
         return
     ctx.case(("section", str(cfg), sc, round(h0, 4)), nontrivial=True, kind="section:%s:N%d" % (sc, N))
     rp["cm_point"] = [float(x) for x in p4]
     rp["synodic"] = [float(x) for x in s]
     if p4[si] != 0.0:
-        ctx.violation("section:coordinate-nonzero:%s" % sc, "centre-manifold point of the section conversion has %s = %r, not 0" % (sc, p4[si]), rp)
+        viol(ctx, "section:coordinate-nonzero:%s" % sc, "centre-manifold point of the section conversion has %s = %r, not 0" % (sc, p4[si]), rp)
     if p4[pc[0]] != pt[0] or p4[pc[1]] != pt[1]:
-        ctx.violation("section:plane-coordinates-changed:%s" % sc, "plane coordinates are not kept", rp)
+        viol(ctx, "section:plane-coordinates-changed:%s" % sc, "plane coordinates are not kept", rp)
     s4 = cm.to_synodic(np.array(p4))
     if not np.array_equal(s4, s):
-        ctx.violation("section:differs-from-4d-conversion:%s" % sc, "to_synodic(pt2, energy) differs from to_synodic of its own centre-manifold point", rp)
+        viol(ctx, "section:differs-from-4d-conversion:%s" % sc, "to_synodic(pt2, energy) differs from to_synodic of its own centre-manifold point", rp)
     # on the energy level of the centre-manifold Hamiltonian: |H - h0| <= root-finder tolerance * |dH/dx|
     mi = {"q3": 3, "p3": 2, "q2": 1, "p2": 0}[sc]
     Hc = complex(ham(place(p4))).real
@@ -1149,23 +1162,23 @@ def section_check(ctx, cfg, cm, ham, point, mu, gamma, EL, const, sc, h0, pt, wo
     if worst is not None:
         worst["H_minus_h0"] = max(worst["H_minus_h0"], abs(Hc - h0))
     if abs(Hc - h0) > tolH:
-        ctx.violation("section:off-energy-level:%s" % sc, "|H_cm - h0| = %.3e exceeds the root-finder tolerance %.1e" % (abs(Hc - h0), tolH),
+        viol(ctx, "section:off-energy-level:%s" % sc, "|H_cm - h0| = %.3e exceeds the root-finder tolerance %.1e" % (abs(Hc - h0), tolH),
                       dict(rp, H_cm=Hc, tolerance=tolH))
     # CR3BP energy of the synodic state (relative to the libration point, local scale) = h0 up to the series remainder
     r = float(np.linalg.norm(p4))
     E = float(h["crtbp_energy"](s, mu))
     disc = abs((E - EL) / gamma ** 2 - h0)
-    bound = 30 * const["energy"] * r ** (N + 1) + tolH + 3 * EN_FLOOR
+    bound = 100 * const["energy"] * r ** (N + 1) + tolH + 3 * EN_FLOOR
     if worst is not None:
         worst["energy_level_ratio"] = max(worst["energy_level_ratio"], disc / bound)
     if disc > bound:
-        ctx.violation("section:synodic-energy:%s" % sc,
-                      "synodic state misses the prescribed energy: |(E-E_L)/gamma^2 - h0| = %.3e > %.3e (30 x fitted remainder at r=%.3f)" % (disc, bound, r),
+        viol(ctx, "section:synodic-energy:%s" % sc,
+                      "synodic state misses the prescribed energy: |(E-E_L)/gamma^2 - h0| = %.3e > %.3e (100 x fitted remainder at r=%.3f)" % (disc, bound, r),
                       dict(rp, discrepancy=disc, bound=bound))
     back = cm.to_cm(s)
-    bsec = 30 * const["round_trip"] * r ** (N + 1) + 3 * RT_FLOOR
+    bsec = 100 * const["round_trip"] * r ** (N + 1) + 3 * RT_FLOOR
     if abs(back[si]) > bsec or float(np.max(np.abs(np.asarray(back) - np.asarray(p4)))) > bsec:
-        ctx.violation("section:synodic-state-off-section:%s" % sc,
+        viol(ctx, "section:synodic-state-off-section:%s" % sc,
                       "mapping the synodic state back gives %s = %.3e (bound %.1e)" % (sc, back[si], bsec), dict(rp, back=[float(x) for x in back], bound=bsec))
 
 
@@ -1199,10 +1212,11 @@ def link_checks(ctx, T):
         o = cm.dynamics._local2synodic(point, np.zeros(6), 1e-14)
         worst["origin->libration-point:L%d" % lk] = float(np.max(np.abs(o - np.r_[point.position, 0.0, 0.0, 0.0])))
     ctx.extra["link_residuals"] = worst
+    ctx.log("chain links: " + ", ".join("%s %.1e" % kv for kv in worst.items()))
     for k, v in worst.items():
         tol = 1e-9 if k.startswith("C*Cinv") else 1e-12
         if not (v <= tol):
-            ctx.violation("link:" + k, "a link of the conversion chain is not the inverse / the table it is modelled as: %s = %.3e" % (k, v),
+            viol(ctx, "link:" + k, "a link of the conversion chain is not the inverse / the table it is modelled as: %s = %.3e" % (k, v),
                           {"kind": "link", "which": k, "residual": v, "tolerance": tol})
 
 
